@@ -8,7 +8,9 @@
    C12_after_write_rejected applies: the import re-reads the state under the lock) or entirely after it (then it is a write on
    the imported state: C11_writable_single).  The statement the harness has to discharge is:
      "between lock and release of Import no statement of a facade write of the same ledger executes"
-   and it is FALSE for atomic bulks, which never take the lock (C12_refuted_atomic_bypass shows the sequential face). *)
+   Since the repair fixes/01-facade-begintx an atomic bulk on an initializing ledger takes the (transaction scoped) ledger
+   lock in BeginTX, before its first statement, and holds it until its commit / rollback, so it is covered by the same
+   statement; before the repair it never took the lock (C12_unrepaired_atomic_bypass shows the sequential face). *)
 From Coq Require Import List ZArith String Bool Ascii Lia Sorted.
 From LV Require Import Base.Util Base.Json Ledger.Types Ledger.Core Ledger.Bulk Ledger.Invariants Ledger.HashChain Ledger.Import Ledger.ImportProofs.
 Import ListNotations.
@@ -31,6 +33,14 @@ Proof.
 Qed.
 Print Assumptions C12_after_write_rejected.
 
+(* the same after a non-atomic bulk in which at least one element was accepted (each element is a facade write) *)
+Theorem C12_after_bulk_write_rejected : forall (H : bytes -> bytes) pre f now b os b' rs now' rs',
+  Forall (fun o => o_dry o = false) os -> w_bulk H pre f now b os = (b', rs) ->
+  (exists lid tid hit, In (BRes (Some (ROk lid tid hit))) rs) ->
+  imp_import H pre f now' b' rs' = (b', Some IENotInitializing).
+Proof. intros H pre f now b os b' rs now' rs'. apply bulk_commit_then_import_rejected. Qed.
+Print Assumptions C12_after_bulk_write_rejected.
+
 (* in-use is absorbing: no write path and no import ever leaves it, so the rejection is permanent *)
 Theorem C12_monotone : forall (H : bytes -> bytes) pre f now b,
   i_l b = InUse ->
@@ -42,7 +52,7 @@ Proof.
   intros H pre f now b E. repeat split.
   - intros o. apply single_keeps_in_use. exact E.
   - intros os. apply bulk_keeps_in_use. exact E.
-  - intros os. rewrite atomic_keeps_lstate. exact E.
+  - intros os. apply atomic_keeps_in_use. exact E.
   - intros rs. apply import_in_use. exact E.
 Qed.
 Print Assumptions C12_monotone.
@@ -52,26 +62,48 @@ Theorem C12_import_keeps_state : forall (H : bytes -> bytes) pre f now b rs, i_l
 Proof. intros. apply import_keeps_lstate. Qed.
 Print Assumptions C12_import_keeps_state.
 
-(* PARTIAL / REFUTED for the atomic-bulk path (S-11): an atomic bulk never flips the state ... *)
-Theorem C12_partial_atomic_never_flips : forall (H : bytes -> bytes) pre f now b os, i_l (fst (w_atomic H pre f now b os)) = i_l b.
-Proof. intros. apply atomic_keeps_lstate. Qed.
-Print Assumptions C12_partial_atomic_never_flips.
+(* ATOMIC bulk, since the repair fixes/01-facade-begintx: it either commits, and then the ledger is in-use, or it has no
+   effect at all; so after an atomic bulk that changed anything every import is refused without effect *)
+Theorem C12_atomic_flips_or_no_effect : forall (H : bytes -> bytes) pre f now b os b' out,
+  w_atomic H pre f now b os = (b', out) ->
+  i_l b' = InUse \/ (i_l b' = i_l b /\ tables (i_s b') = tables (i_s b) /\ i_tab b' = i_tab b).
+Proof. intros H pre f now b os b' out. apply atomic_flips_or_no_effect. Qed.
+Print Assumptions C12_atomic_flips_or_no_effect.
+
+Theorem C12_after_atomic_write_rejected : forall (H : bytes -> bytes) pre f now b os b' out now' rs,
+  w_atomic H pre f now b os = (b', out) -> tables (i_s b') <> tables (i_s b) ->
+  imp_import H pre f now' b' rs = (b', Some IENotInitializing).
+Proof.
+  intros H pre f now b os b' out now' rs E Hne. apply import_in_use.
+  destruct (atomic_flips_or_no_effect H pre f now b os b' out E) as [I|(_ & T & _)]; [exact I | contradiction].
+Qed.
+Print Assumptions C12_after_atomic_write_rejected.
 
 Local Open Scope string_scope.
-(* ... so a write accepted through it is followed by an ACCEPTED import that changes the ledger: the pristine copy takes an
-   atomic bulk (transaction 1, log 1), then the tail of another ledger's export (log 2: metadata on account bob) *)
-Theorem C12_refuted_atomic_bypass : exists f h o,
-  let '(a, b, rs) := run_script f h [AAtomic 1000 [o]; AImport 1 None 2000] in
-  exists b1, rs = [RAtomic (AResults [ARes (BRes (Some (ROk 1 (Some 1) false)))]); RImport None b1] /\
-  map l_id (s_logs (i_s b)) = [1; 2] /\ map a_addr (s_accounts (i_s b)) = ["world"; "alice"; "bob"].
+(* FOR THE RECORD, the code BEFORE the repair (w_atomic_unrepaired; S-11, confirmed on the real stack, known finding
+   KF-C12-atomic-bulk-bypasses-state-tracker, fixed): the bulk never flipped the state ... *)
+Theorem C12_unrepaired_atomic_never_flips : forall (H : bytes -> bytes) pre f now b os, i_l (fst (w_atomic_unrepaired H pre f now b os)) = i_l b.
+Proof. intros. apply atomic_unrepaired_keeps_lstate. Qed.
+Print Assumptions C12_unrepaired_atomic_never_flips.
+
+(* ... so a write accepted through it was followed by an ACCEPTED import that changed the ledger: the pristine copy takes an
+   atomic bulk (transaction 1, log 1), then the tail of another ledger's export (log 2: metadata on account bob); since
+   the repair the same script ends with the import refused *)
+Theorem C12_unrepaired_atomic_bypass : exists f h o,
+  (let '(a, b, rs) := run_script f h [AAtomicUnrepaired 1000 [o]; AImport 1 None 2000] in
+   exists b1, rs = [RAtomic (AResults [ARes (BRes (Some (ROk 1 (Some 1) false)))]); RImport None b1] /\
+   map l_id (s_logs (i_s b)) = [1; 2] /\ map a_addr (s_accounts (i_s b)) = ["world"; "alice"; "bob"]) /\
+  (let '(a, b, rs) := run_script f h [AAtomic 1000 [o]; AImport 1 None 2000] in
+   exists b1, rs = [RAtomic (AResults [ARes (BRes (Some (ROk 1 (Some 1) false)))]); RImport (Some IENotInitializing) b1] /\
+   map l_id (s_logs (i_s b)) = [1] /\ i_l b = InUse).
 Proof.
   exists {| f_moves := true; f_pcev := true; f_acc_hist := true; f_tx_hist := true; f_hash := false |},
          [(10, {| o_in := ICreate [{| p_src := "world"; p_dst := "carol"; p_asset := "USD"; p_amt := 5 |}] None "" [] [] false; o_ik := ""; o_dry := false |});
           (20, {| o_in := ISetMeta (TAcc "bob") [("k", "v")]; o_ik := ""; o_dry := false |})],
          {| o_in := ICreate [{| p_src := "world"; p_dst := "alice"; p_asset := "USD"; p_amt := 7 |}] None "" [] [] false; o_ik := ""; o_dry := false |}.
-  vm_compute. eexists. repeat split; reflexivity.
+  vm_compute. split; eexists; repeat split; reflexivity.
 Qed.
-Print Assumptions C12_refuted_atomic_bypass.
+Print Assumptions C12_unrepaired_atomic_bypass.
 
 (* non-vacuity: a pristine import is accepted, a write flips the state, the same stream is then refused without effect;
    on the copy BEFORE the write a second import of the same stream is refused because the ids exist *)
